@@ -247,14 +247,60 @@ def specs_plain(x):
 
 
 def replay_case(where):
+    if where.get('cli'):
+        return _cli_job((where['k'], where['locale']))[1]
     cnt, out, _, _ = (_json_job if where.get('json') else _job)((where['seed'], where['n']))
     return [o for o in out if o[2].get('index') == where['index']]
+
+
+def _cli_job(job):
+    """the same guarantee through the command line and the git merge driver: notebooks full of text outside ASCII whose sides change
+    different cells, merged by real `nbmerge --out` / `git-nbmergedriver merge` processes, in the locale of this machine and in a
+    process whose locale encoding is not UTF-8; the written notebook must be the by-construction expectation, the status 0"""
+    k, locale = job
+    logging.disable(logging.CRITICAL)
+    import os
+    import nbformat
+    from bounded import nbspace, c08_harness as H
+    from bounded.difforacles import first_difference
+    b, l, r, want = nbspace.nonascii_disjoint_case(k)
+    out = []
+    where = {'cli': True, 'k': k, 'locale': locale}
+    for app in ('cli', 'driver'):
+        with H.scratch() as d:
+            names = {}
+            for name, nb in (('base', b), ('local', l), ('remote', r)):
+                names[name] = os.path.join(d, name + '.ipynb')
+                with open(names[name], 'w', encoding='utf8') as fh:
+                    nbformat.write(nb, fh)
+            if app == 'cli':
+                target = os.path.join(d, 'merged.ipynb')
+                argv = [names['base'], names['local'], names['remote'], '--out', target]
+            else:
+                target = names['local']
+                argv = ['merge', names['base'], names['local'], names['remote'], '7', 'nb.ipynb']
+            rc, stdout, stderr = H.invoke_subprocess(app, argv, d, None, locale)
+            desc = '%s on disjoint changes to a notebook with text outside ASCII (case %d, process locale %s)' % (
+                'nbmerge --out' if app == 'cli' else 'git-nbmergedriver merge', k, locale or 'as inherited')
+            if rc != 0:
+                out.append(('cli-status:' + app, '%s exits with status %d: %s' % (desc, rc, stderr.strip().splitlines()[-1][:200] if stderr.strip() else ''), where))
+                continue
+            try:
+                got = nbformat.read(target, as_version=4)
+            except Exception as exc:
+                out.append(('cli-output:' + app, '%s: the output cannot be read: %s: %s' % (desc, type(exc).__name__, str(exc)[:160]), where))
+                continue
+            if nbspace.canon(got) != nbspace.canon(want):
+                out.append(('cli-result:' + app, '%s: the written notebook is not base with both sets of changes: %s'
+                            % (desc, first_difference(nbspace.to_plain(got), nbspace.to_plain(want))), where))
+    return 2, out, [hash((k, locale, 'cli'))], None
 
 
 def run(res):
     q = res.tier == 'quick'
     jobs = [(res.seed * 9173 + s, 150 if q else 600) for s in range(32 if q else 96)]
     results = common.pmap(_job, jobs) + common.pmap(_json_job, [(res.seed * 9173 + 700 + s, 1500 if q else 10000) for s in range(16)])
+    results += common.pmap(_cli_job, [(k, loc) for k in range(4 if q else 8) for loc in (None, 'C')])
     seen = set()
     for cnt, fails, keys, sample in results:
         res.evaluations += cnt
@@ -271,7 +317,9 @@ def run(res):
     res.coverage['rule'] = ('bases of 2-5 cells from the 14-cell pool (minors 5/4/2); every cell owned by local, remote or nobody; owner applies one of '
                             '{append source line, edit a source line, add output, metadata key, execution count, delete, leave}; insertions only in gaps whose '
                             'neighbouring cells the other side left untouched and not next to the other side\'s insertions; 3 strategy tables; expected notebook built '
-                            'directly from the chosen actions. Generic JSON: dicts with per-key ownership, lists with changes separated by an untouched item.')
+                            'directly from the chosen actions. Generic JSON: dicts with per-key ownership, lists with changes separated by an untouched item. Command line: real '
+                            'nbmerge --out / git-nbmergedriver merge processes on by-construction cases full of text outside ASCII, in the inherited locale and in a process '
+                            'whose locale encoding is not UTF-8 (LC_ALL=C, UTF-8 mode and coercion off).')
     res.assumptions.append('bounded: only the stated small scope is explored')
 
 
